@@ -160,10 +160,11 @@ def h_rt(ctx, sk, k, pool, rows, schemes=None):
     ni = ctx.choice("names", len(schemes))
     ii = ctx.choice("init", len(tvio.INIT_PATTERNS))
     cv = ctx.choice("consts", len(pl))
+    tie = ctx.choice("tie", 2)
     if rows is not None:
-        ctx.assume([ni, ii, cv] in rows)
+        ctx.assume([ni, ii, cv, tie] in rows)
     env = ctx.fresh_env()
-    vals = tvio.leaf_values(cv, pl, _int_pool(pl) if sk.get("ntype", "int") == "int" else None)
+    vals = tvio.leaf_values(cv, pl, _int_pool(pl) if sk.get("ntype", "int") == "int" else None, tie=bool(tie))
     if sk.get("n_bounds", "none") != "none":
         # lower bound 0 in the general shards (a NEGATIVE bound is a recorded finding: the grammar has no signed number in a
         # type; shard bounds-neg); an initial value below the bound is kept (both sides must then reject the initial state)
@@ -401,7 +402,10 @@ FINDING_SKELETONS = {
 
 
 def _rows(n_schemes, n_init, n_consts, n):
-    return [[i % n_schemes, (i // 2) % n_init, (i * 3 + i // n_consts) % n_consts] for i in range(n)]
+    rows = [[i % n_schemes, (i // 2) % n_init, (i * 3 + i // n_consts) % n_consts, 0] for i in range(n)]
+    # + boundary rows (tie: comparison constants equal to the initial value), one per 4 ordinary rows
+    rows += [[(3 * i + 1) % n_schemes, i % n_init, (2 * i) % n_consts, 1] for i in range(max(2, n // 4))]
+    return rows
 
 
 def shards(tier, seed):
@@ -416,11 +420,11 @@ def shards(tier, seed):
             out.append(dict(name=f"temporal{v}", fn="h_temporal", engine="direct", budget=600, query_timeout=60,
                             kwargs=dict(k=2, pool="quick", variants=[v], rows=[[(2 * i + v) % ns, (3 * i + v) % nc] for i in range(5)])))
         out.append(dict(name="names-inner", fn="h_rt", engine="direct", budget=60,
-                        kwargs=dict(sk=SKELETONS[1], k=2, pool="quick", rows=[[0, 0, 0]], schemes=["isym"])))
+                        kwargs=dict(sk=SKELETONS[1], k=2, pool="quick", rows=[[0, 0, 0, 0]], schemes=["isym"])))
         out.append(dict(name="env-reader", fn="h_env", engine="direct", budget=60, kwargs=dict(sk=SKELETONS[7])))
         for name, sk in FINDING_SKELETONS.items():
             out.append(dict(name=name, fn="h_rt", engine="direct", budget=120, query_timeout=60,
-                            kwargs=dict(sk=sk, k=2, pool="quick", rows=[[0, 0, 0], [1, 1, 3]], schemes=["plain", "upper"])))
+                            kwargs=dict(sk=sk, k=2, pool="quick", rows=[[0, 0, 0, 0], [1, 1, 3, 0]], schemes=["plain", "upper"])))
     else:
         nc = len(POOLS["thorough"])
         for i, sk in enumerate(SKELETONS):
@@ -430,11 +434,11 @@ def shards(tier, seed):
             out.append(dict(name=f"t-temporal{v}", fn="h_temporal", engine="direct", budget=3000, query_timeout=120,
                             kwargs=dict(k=3, pool="thorough", variants=[v])))
         out.append(dict(name="t-names-inner", fn="h_rt", engine="direct", budget=60,
-                        kwargs=dict(sk=SKELETONS[1], k=3, pool="thorough", rows=[[0, 0, 0]], schemes=["isym"])))
+                        kwargs=dict(sk=SKELETONS[1], k=3, pool="thorough", rows=[[0, 0, 0, 0]], schemes=["isym"])))
         out.append(dict(name="t-env-reader", fn="h_env", engine="direct", budget=60, kwargs=dict(sk=SKELETONS[7])))
         for name, sk in FINDING_SKELETONS.items():
             out.append(dict(name="t-" + name, fn="h_rt", engine="direct", budget=300, query_timeout=120,
-                            kwargs=dict(sk=sk, k=3, pool="thorough", rows=[[0, 0, 0], [1, 1, 3]], schemes=["plain", "upper"])))
+                            kwargs=dict(sk=sk, k=3, pool="thorough", rows=[[0, 0, 0, 0], [1, 1, 3, 0]], schemes=["plain", "upper"])))
     return out
 
 
